@@ -217,6 +217,8 @@ LOOKUP_CELLS = {
     'W6': '=COUNTIFS(AA1:AB3,">=1",AA1:AB3,"<5")', 'W7': '=COUNTIF(AA2:AB2,"<>1")', 'W8': '=COUNTIF(AA1:AB1,">0")', 'W9': '=COUNTIF(AA1:AC3,"<>fig")',
     'AD1': 0, 'AD2': 5, 'AD3': 0.0, 'AD4': False, 'W10': '=COUNTIF(AD1:AD4,0)', 'W11': '=COUNTIF(AD1:AD4,"<1")', 'W12': '=COUNTIF(AD1:AD4,FALSE)',
     'W13': '=COUNTIFS(AD1:AD4,"<=0",AD1:AD4,">=0")', 'W14': '=COUNTIF(AD1:AD4,"<>5")',
+    'AE1': '=""', 'AE2': 0, 'AE3': 0, 'AE4': 'x', 'W15': '=COUNTIF(AE1:AE3,">=0")', 'W16': '=COUNTIF(AE2:AE3,">=0")+COUNTIF(AE1:AE3,">=0")',
+    'X8': '=MATCH("20",A1:A4,0)', 'X9': '=MATCH("1",C1:C5,0)', 'X10': '=MATCH("30",A1:A4,FALSE)',
     'X1': '=MATCH(40,N1:N4,FALSE)', 'X2': '=MATCH(25,A1:A4,FALSE)', 'X3': '=MATCH(20,A1:A4,FALSE)', 'X4': '=MATCH("fig",AC1:AC3,FALSE)', 'X5': '=MATCH(20,A1:A4,1=2)',
     'X6': '=MATCH(20,N1:N4,0)', 'N1': 30, 'N2': 10, 'N3': 40, 'N4': 20,
     'H1': '=CHOOSE(2,"a","b","c")', 'H2': '=CHOOSE(1,A1,A2)', 'H3': '=CHOOSE(3,A1,A2,A4)+1', 'H4': '=CHOOSE(4,"a","b","c")', 'H5': '=CHOOSE(0,"a")',
@@ -227,7 +229,7 @@ LOOKUP_EXPECTED = {
     'K1': 2, 'K2': 2, 'K3': 3, 'K4': 1, 'K5': 1, 'K6': 4, 'K7': 2, 'K8': 2, 'K9': 0, 'K10': 3, 'K11': 1,
     'V1': 'x', 'V2': 'y', 'V3': 2.5, 'V4': '#N/A', 'V5': '#VALUE!', 'V6': 4.5, 'V7': 4.5, 'V8': 10, 'V9': '#VALUE!', 'V10': 2.5, 'V11': 2.5, 'V12': 1.5, 'V13': '#N/A',
     'V14': '#VALUE!', 'V15': 't', 'V16': '#N/A', 'V17': '#N/A', 'V18': '#N/A', 'V19': 2.5, 'V20': 'z', 'V21': '#N/A', 'V22': '#N/A', 'V23': '#N/A',
-    'W1': 5, 'W2': 1, 'W3': 4, 'W4': 2, 'W5': 1, 'W6': 4, 'W7': 1, 'W8': 2, 'W9': 7, 'W10': 2, 'W11': 2, 'W12': 1, 'W13': 2, 'W14': 3, 'X1': 3, 'X2': '#N/A', 'X3': 2, 'X4': 1, 'X5': 2, 'X6': 4,
+    'W1': 5, 'W2': 1, 'W3': 4, 'W4': 2, 'W5': 1, 'W6': 4, 'W7': 1, 'W8': 2, 'W9': 7, 'W10': 2, 'W11': 2, 'W12': 1, 'W13': 2, 'W14': 3, 'W15': 2, 'W16': 4, 'X8': '#N/A', 'X9': '#N/A', 'X10': '#N/A', 'X1': 3, 'X2': '#N/A', 'X3': 2, 'X4': 1, 'X5': 2, 'X6': 4,
     'H1': 'b', 'H2': 10, 'H3': 31, 'H4': '#VALUE!', 'H5': '#VALUE!',
 }
 
